@@ -1114,3 +1114,107 @@ class Effects:
                 if cs.local and cs.callee not in seen:
                     st.append(cs.callee)
         return seen
+
+
+# ----------------------------------------------------------------------
+# must-write analysis (forward, intersection): which arg-rooted paths are
+# definitely (re)assigned as a whole on every path to a normal return
+# ----------------------------------------------------------------------
+class MustWrite:
+    def __init__(self, effects):
+        self.E = effects
+        self.mw = {p: None for p in effects.bodies}   # None = not yet computed (top)
+        self.sites = {}      # fn -> {path: [(point, kind)]} definite write sites
+        self._run()
+
+    @staticmethod
+    def _definite(paths):
+        if len(paths) != 1:
+            return None
+        p = next(iter(paths))
+        if is_ro(p) or "[]" in p or "?" in p:
+            return None
+        return p
+
+    def _transfer_point(self, fn, body, val, pt):
+        """Set of paths definitely written by executing the statement at pt."""
+        b, i = pt
+        out = set()
+        blk = body.blocks[b]
+        if i < len(blk["stmts"]):
+            s = blk["stmts"][i]
+            if s["k"] == "assign":
+                il, dst = self.E._resolve(body, val, s["place"])
+                if not il:
+                    d = self._definite(dst)
+                    if d is not None:
+                        out.add(d)
+        else:
+            t = blk["term"]
+            if t["k"] == "call":
+                il, dst = self.E._resolve(body, val, t["dest"])
+                if not il:
+                    d = self._definite(dst)
+                    if d is not None:
+                        out.add(d)
+                c = t["callee"]
+                r = c.get("resolved")
+                if r and c.get("resolved_local") and self.mw.get(r):
+                    arg_vals = [self.E._operand_val(body, val, a) for a in t["args"]]
+                    for p in self.mw[r]:
+                        n = root_num(p) - 1
+                        if n < len(arg_vals):
+                            base = self._definite(arg_vals[n])
+                            if base is not None:
+                                out.add(trunc(base + p[1:]))
+        return out
+
+    def _analyse(self, fn):
+        body = self.E.bodies[fn]
+        val = self.E.val[fn]
+        nb = sorted(body.normal_blocks())
+        TOP = None
+        inn = {b: TOP for b in nb}
+        inn[0] = frozenset()
+        gen = {}
+        for b in nb:
+            g = set()
+            for i in range(body.n_stmts(b) + 1):
+                g |= self._transfer_point(fn, body, val, (b, i))
+            gen[b] = g
+        changed = True
+        while changed:
+            changed = False
+            for b in nb:
+                if inn[b] is TOP:
+                    continue
+                out = frozenset(inn[b] | gen[b])
+                for s in body.succ(b):
+                    if s not in inn:
+                        continue
+                    new = out if inn[s] is TOP else (inn[s] & out)
+                    if new != inn[s]:
+                        inn[s] = new
+                        changed = True
+        res = None
+        for rb in body.return_blocks():
+            if inn[rb] is TOP:
+                continue
+            o = inn[rb] | gen[rb]
+            res = set(o) if res is None else (res & o)
+        res = res or set()
+        return {p for p in res if root_kind(p) == "arg"}
+
+    def _run(self):
+        for _ in range(12):
+            changed = False
+            for fn in self.E.bodies:
+                new = self._analyse(fn)
+                if self.mw[fn] is None or new != self.mw[fn]:
+                    self.mw[fn] = new
+                    changed = True
+            if not changed:
+                break
+
+    def must(self, fn):
+        return self.mw.get(fn) or set()
